@@ -8,6 +8,8 @@ the correspondence) or stops the check loudly.
 """
 import re
 
+OUTPUTS = ['FrameConsts.v']
+
 
 def _die(msg):
     raise SystemExit("translator(gen_frameconsts): " + msg)
